@@ -584,6 +584,16 @@ func (am *AccountingManager) pendingRecordProcessor() {
 
 // processPendingRecord attempts to send a pending record
 func (am *AccountingManager) processPendingRecord(record *PendingAcctRecord) {
+	// A record is handed to the worker twice: through pendingQueue and, once it
+	// is due, through the retry ticker's scan of pendingRecords. Whichever comes
+	// second must not send it again after the first one delivered (or abandoned) it.
+	am.pendingMu.RLock()
+	_, stillPending := am.pendingRecords[record.ID]
+	am.pendingMu.RUnlock()
+	if !stillPending {
+		return
+	}
+
 	ctx, cancel := context.WithTimeout(am.ctx, 5*time.Second)
 	defer cancel()
 
